@@ -124,6 +124,10 @@ def summarise(prop, tier, seed, contracts, grps, findings, res, wall, write_base
             undecided.append({"id": g.id + ".*", "why": "no result"})
             continue
         functions.append({"group": g.id, "kind": g.kind, "functions": list(g.functions)})
+        if r.get("status") in ("timeout", "crash", "error") or isinstance(r.get("obligations"), dict):
+            # the group did not finish (killed on the time-out, or it raised): nothing it covers is decided
+            undecided.append({"id": g.id + ".*", "why": f"{r.get('status')}: {str(r.get('detail', ''))[:300]}"})
+            continue
         for o in r["obligations"]:
             kind = o.get("kind", g.kind)
             if o["status"] == "proved":
